@@ -12,6 +12,7 @@ CONSTANTS
   MaxRuns = 1
   AllowDecor = FALSE
   OnExcChoices = {TRUE, FALSE}
+  PreForceChoices = {FALSE}
   StepOps = {"upcall", "addCleanup", "addDetail", "expect", "patch", "useFixture"}
   AllowMulti = FALSE
   Variant = "asRequired"
@@ -20,6 +21,7 @@ CONSTANTS
   CleanOf <- MCCleanOf
   FixtureSetUpFails <- MCFixtureSetUpFails
   FixtureCleanKind <- MCFixtureCleanKind
+  FixtureGatherRaises <- MCFixtureGatherRaises
   FixtureDetails <- MCFixtureDetails
   MismatchDetails <- MCMismatchDetails
 INVARIANT Bracketed
